@@ -83,8 +83,38 @@ class TEnv:
     return False
 
 
-NOPS = 8
+NOPS = 10
 STRUCT_OPS = (2, 3, 4, 5)
+NESTED = {'t': None}     # the transform under test (None: eager reference run)
+
+
+def _nested(m, other, x):
+  """op 9: the same transform once more, inside the transformed function"""
+  t = NESTED['t']
+
+  def g(m_, o_, x_):
+    if hasattr(m_, 'p'):
+      m_.p.value = m_.p.value + 2 * x_ + 1
+    m_.child.b.value = m_.child.b.value + 1
+    if t in ('jit', 'remat', None) and NESTED.get('structural'):
+      m_.nested_new = nnx.Param(x_ + 2)
+    return m_.child.b.value
+  if t is None:
+    return g(m, other, x)
+  if t == 'jit':
+    return nnx.jit(g)(m, other, x)
+  if t == 'remat':
+    return nnx.remat(g)(m, other, x)
+  if t == 'cond':
+    return nnx.cond(x >= 0, g, lambda a, b, c: a.child.b.value * 0 + 5, m, other, x)
+  if t == 'switch':
+    return nnx.switch(1, [lambda a, b, c: a.child.b.value * 0 + 5, g], m, other, x)
+  if t == 'fori':
+    return nnx.fori_loop(0, 1, lambda i, v: (v[0], v[1], v[2] + g(v[0], v[1], x)),
+                         (m, other, 0))[2]
+  return nnx.while_loop(lambda v: v[3] < 1,
+                        lambda v: (v[0], v[1], v[2] + g(v[0], v[1], x), v[3] + 1),
+                        (m, other, 0, 0))[2]
 
 
 def mutate(m, other, x, op):
@@ -115,6 +145,12 @@ def mutate(m, other, x, op):
   if op == 6:
     other.b.value = other.b.value + 10     # through the second argument
     return other.b.value
+  if op == 8:
+    # record-like pytree attribute: the two fields are treated differently
+    m.rec.total.value = m.rec.total.value + x
+    return m.rec.count.value
+  if op == 9:
+    return _nested(m, other, x)
   return (m.p.value if hasattr(m, 'p') else 0) * 2        # read only
 
 
@@ -136,7 +172,7 @@ def user_fn(prog, bare=False):
 
 def _build(edge, second, v0, v1, v2):
   edges = [] if edge is None else [edge]
-  o = GR.build(edges, v0, v1, v2, table=True)
+  o = GR.build(edges, v0, v1, v2, table=True, record=True)
   other = pick([o['M1'], o['M2']], second)
   if second == 1:
     o['M2'].b = nnx.BatchStat(v2 + 5)
@@ -177,12 +213,16 @@ def jit_remat_like_eager(t, ne, s0, d0, h0, second, v0, v1, v2, x, n, o0, o1, ca
   ids_before = {k: id(v) for k, v in oa.items() if k in ('M0', 'M1', 'M2')}
   with TEnv():
     tf = nnx.jit(f) if t == 0 else nnx.remat(f)
+    NESTED['structural'] = True
     for i in range(calls):
+      NESTED['t'] = 'jit' if t == 0 else 'remat'
       try:
         ya = tf(*pre_a, ma, othera, x)
         erra = None
       except (AttributeError, ValueError) as e:
         ya, erra = None, type(e).__name__
+      finally:
+        NESTED['t'] = None
       try:
         yb = f(*pre_b, mb, otherb, x)
         errb = None
@@ -216,7 +256,9 @@ def control_flow_like_python(t, second, v0, v1, v2, x, o0, o1, sel, trips):
   ob, mb, otherb = _build(None, second, v0, v1, v2)
   fa = user_fn(ops[:1])
   fb_ = user_fn(ops[1:])
+  NESTED['structural'] = False
   with TEnv():
+    NESTED['t'] = ('cond', 'switch', 'fori', 'while')[t]
     try:
       if t == 0:
         ya = nnx.cond(sel == 0, fa, fb_, ma, othera, x)
@@ -239,6 +281,8 @@ def control_flow_like_python(t, second, v0, v1, v2, x, o0, o1, sel, trips):
       erra = None
     except ValueError:
       ya, erra = None, 'ValueError'
+    finally:
+      NESTED['t'] = None
   # python reference
   if t == 0:
     used = ops[:1] if sel == 0 else ops[1:]
